@@ -7,6 +7,7 @@ import DK.Driver.Sets
 import DK.Driver.Usable
 import DK.Driver.State
 import DK.Driver.Solve
+import DK.Driver.Cons
 /-! Line driver: one JSON operation per input line, one JSON answer per output line. -/
 namespace DK.Driver
 open Lean
@@ -29,6 +30,7 @@ def handle (line : String) : String :=
       else if op.startsWith "usable." then usableOp op j
       else if op.startsWith "state." then stateOp op j
       else if op.startsWith "solve." then solveOp op j
+      else if op.startsWith "cons." then consOp op j
       else throw s!"unknown op {op}" : Except String Json) with
     | .ok v => ok v
     | .error e => err e
